@@ -183,6 +183,7 @@ def genReject (L : Limits) (p : Prog) : Option Nat := genRejectGo L 0 p.funcs
 /-- A reason for which the C compiler stops on the emitted code. -/
 inductive CErr
   | flows (f n : Nat)       -- `#if MAX_PARAM_COUNT < nb_flows`  (.h, task typedef)
+  | unused (f n : Nat)      -- `parsec_data_pair_t unused[MAX_LOCAL_COUNT-nb_flows]`: negative size
   | depsIn (f fl n : Nat)   -- `#if MAX_DEP_IN_COUNT < deps_in`
   | depsOut (f fl n : Nat)  -- `#if MAX_DEP_OUT_COUNT < deps_out`
   | rdFlows (f n : Nat)     -- `#if MAX_PARAM_COUNT < in_flows`
@@ -207,6 +208,7 @@ def flowsErrs (L : Limits) (fi : Nat) : Nat → List Flow → List CErr
 
 def funcErrs (L : Limits) (fi : Nat) (f : Func) : List CErr :=
   (if L.maxParam < f.flows.length then [CErr.flows fi f.flows.length] else []) ++
+  (if L.maxLocal < f.flows.length then [CErr.unused fi f.flows.length] else []) ++
   flowsErrs L fi 0 f.flows ++
   (if L.maxParam < f.readFlows then [CErr.rdFlows fi f.readFlows] else []) ++
   (if L.maxParam < f.writeFlows then [CErr.wrFlows fi f.writeFlows] else []) ++
@@ -316,6 +318,7 @@ def Diag.str : Diag → String
 
 def CErr.str : CErr → String
   | .flows f n => s!"flows:{f}:{n}"
+  | .unused f n => s!"unused:{f}:{n}"
   | .depsIn f fl n => s!"din:{f}.{fl}:{n}"
   | .depsOut f fl n => s!"dout:{f}.{fl}:{n}"
   | .rdFlows f n => s!"rd:{f}:{n}"
